@@ -3,7 +3,7 @@ from .. import traceprop
 
 ID = "C09"
 SHRINK = False
-GEN = ["KeyedCalls.lean", "MapHooks.lean"]   # method shapes of keyedmutex.go, atomic sites of map.go regenerated from the source (tie 4B)
+GEN = ["KeyedCalls.lean", "MapHooks.lean", "MapFlow.lean"]   # method shapes of keyedmutex.go, atomic sites of map.go regenerated from the source (tie 4B)
 RULE = ("executions under the controlled scheduler (verif hooks in sync2.Map and keyedmutex.go: one goroutine runnable at a time, a schedule is a list of goroutine ids): "
         "every schedule with at most 2 preemptions of a catalogue of 2-3 goroutine programs (first-use race on one key, two keys, try-lock against holder, readers/writer) "
         "ClearKey of never-used keys racing first uses, a cleared key re-acquired while another key's first use rebuilds the map) plus random programs of 2-4 goroutines x 1-3 lock/try-lock/unlock/clear operations "
